@@ -1,5 +1,188 @@
-(* C08 -- bit-field keys are collision-free (work in progress). *)
+(* C08 -- Bit-field keys are collision-free: fields never overlap or overflow.
+   Property theorems only; each is closed by `exact` of a lemma of Proofs/BitField*.v.
+
+   The model (Model/BitField.v) follows rig/bitfield.py operation by operation; [reachable] is the set
+   of states of ANY history of add_field / __call__ / assign_fields / queries on one BitField and the
+   instances derived from it (any hierarchy depth, sibling scopes re-using names, fixed and automatic
+   positions and lengths, tags, any bit-field length, any interleaving).  "Present together": both
+   listed by enabled_fields for one assignment of values. *)
 From Coq Require Import ZArith List Bool.
 Require Import Rig.Model.Base Rig.Model.BitField Rig.Spec.BitField Rig.Proofs.BitField.
 Import ListNotations.
 Open Scope Z_scope.
+
+(* ---------------------------------------------------------------- safety of the layout (U) *)
+
+(* After a successful assign_fields every field has a position inside [0, length) and any two fields
+   that can be present together occupy disjoint bit ranges. *)
+Theorem C08_assign_no_overlap :
+  forall st st', reachable st -> assign_fields st = (st', None) ->
+    no_overlap (s_tree st') (s_store st') /\ all_placed (s_len st') (s_tree st') (s_store st').
+Proof. exact assign_no_overlap. Qed.
+
+(* Stronger, at every moment of every history (also before / without / after a failed assign_fields):
+   the fields that already have a position never overlap when they can be present together, and a
+   field's length, once known, exceeds the largest value recorded for it. *)
+Theorem C08_no_overlap_at_any_time :
+  forall st, reachable st ->
+    no_overlap (s_tree st) (s_store st) /\ wide_enough (s_tree st) (s_store st).
+Proof. exact reachable_no_overlap. Qed.
+
+(* Every field is wide enough for every value ever given to it: a value accepted by __call__ (at state
+   st1, for the field that identifier i resolves to) is non-negative and below 2^length in every later
+   state st3 in which that field's length is known. *)
+Theorem C08_assign_wide_enough :
+  forall st1 fv kw st2 st3 i v,
+    reachable st1 -> call st1 fv kw = (st2, None) -> In (i, v) (kw ++ fv) -> reaches st2 st3 ->
+    exists fid, get_field (s_tree st2) i (kw ++ fv) = Some fid /\ 0 <= v /\
+                forall l, f_len (sget (s_store st3) fid) = Some l -> v < 2 ^ l.
+Proof. exact assign_wide_enough. Qed.
+
+(* ---------------------------------------------------------------- keys (U) *)
+
+(* Read-back: on a laid-out bit field, the key of any instance of the history returns every present
+   field's value at the field's reported position. *)
+Theorem C08_value_readback :
+  forall st st' fv v,
+    reachable st -> assign_fields st = (st', None) -> In fv (s_insts st') ->
+    get_value st' fv None None = Ok v ->
+    forall i f, In (i, f) (enabled_fields (s_tree st') fv) ->
+      exists p l x, frange (s_store st') f = Some (p, l) /\ zassoc i fv = Some x /\ read_field v p l = x.
+Proof. exact reachable_value_readback. Qed.
+
+(* The mask is exactly the union of the present fields' bits; with a tag, of the present fields
+   carrying the tag; with a field, that field's bits. *)
+Theorem C08_mask_is_union :
+  forall L st fv m, all_placed L (s_tree st) (s_store st) ->
+    get_mask st fv None None = Ok m -> m = union_bits (s_store st) (enabled_fields (s_tree st) fv).
+Proof. exact mask_is_union. Qed.
+
+Theorem C08_tag_mask_is_union :
+  forall L st fv tg m, all_placed L (s_tree st) (s_store st) ->
+    get_mask st fv (Some tg) None = Ok m ->
+    m = union_bits (s_store st) (filter (has_tag (s_store st) tg) (enabled_fields (s_tree st) fv)).
+Proof. exact tag_mask_is_union. Qed.
+
+Theorem C08_field_mask_is_range :
+  forall L st fv i m, all_placed L (s_tree st) (s_store st) ->
+    get_mask st fv None (Some i) = Ok m ->
+    exists f p l, get_field (s_tree st) i fv = Some f /\ frange (s_store st) f = Some (p, l)
+                  /\ m = range_mask p l.
+Proof. exact field_mask_is_range. Qed.
+
+(* Two complete instances that differ in the value of a field never produce key/mask pairs that match a
+   common key (get_value only returns for complete instances: C08_key_needs_complete). *)
+Theorem C08_keys_distinct :
+  forall st st' fv1 fv2 v1 m1 v2 m2,
+    reachable st -> assign_fields st = (st', None) -> In fv1 (s_insts st') -> In fv2 (s_insts st') ->
+    get_value st' fv1 None None = Ok v1 -> get_mask st' fv1 None None = Ok m1 ->
+    get_value st' fv2 None None = Ok v2 -> get_mask st' fv2 None None = Ok m2 ->
+    (exists i f, In (i, f) (enabled_fields (s_tree st') fv1) /\ zassoc i fv1 <> zassoc i fv2) ->
+    ~ keys_intersect v1 m1 v2 m2.
+Proof. exact reachable_keys_distinct. Qed.
+
+Theorem C08_key_needs_complete :
+  forall st fv v, get_value st fv None None = Ok v -> complete (s_tree st) fv.
+Proof. exact get_value_complete. Qed.
+
+(* The same three facts for ANY layout that satisfies the layout predicates (this is what the verified
+   checker below establishes for the real object). *)
+Theorem C08_keys_distinct_of_sound_layout :
+  forall L st fv1 fv2 v1 m1 v2 m2,
+    sound_layout L (s_tree st) (s_store st) -> keys_local (s_tree st) = true ->
+    values_fit (s_tree st) (s_store st) fv1 -> values_fit (s_tree st) (s_store st) fv2 ->
+    get_value st fv1 None None = Ok v1 -> get_mask st fv1 None None = Ok m1 ->
+    get_value st fv2 None None = Ok v2 -> get_mask st fv2 None None = Ok m2 ->
+    (exists i f, In (i, f) (enabled_fields (s_tree st) fv1) /\ zassoc i fv1 <> zassoc i fv2) ->
+    ~ keys_intersect v1 m1 v2 m2.
+Proof. exact keys_distinct. Qed.
+
+Theorem C08_value_readback_of_sound_layout :
+  forall L st fv v,
+    sound_layout L (s_tree st) (s_store st) -> values_fit (s_tree st) (s_store st) fv ->
+    get_value st fv None None = Ok v ->
+    forall i f, In (i, f) (enabled_fields (s_tree st) fv) ->
+      exists p l x, frange (s_store st) f = Some (p, l) /\ zassoc i fv = Some x /\ read_field v p l = x.
+Proof. exact value_readback. Qed.
+
+(* ---------------------------------------------------------------- verified checker (V) *)
+(* check_bitfield is evaluated inside Coq on the tree and field objects extracted from the real
+   BitField after every generated history; `true` is a proof of the layout sentences for that object:
+   disjointness of co-present fields inside [0, length), max_value < 2^length, tags closed under
+   requirements (a field carries the tags of every field defined under a condition naming it). *)
+Theorem C08_check_bitfield_sound :
+  forall L t s, check_bitfield L t s = true ->
+    sound_layout L t s /\ keys_local t = true /\ wide_enough t s /\ tags_closed t s.
+Proof. exact check_bitfield_sound. Qed.
+
+(* ---------------------------------------------------------------- rejection of explicit definitions (U) *)
+Theorem C08_add_field_rejects_overflow :
+  forall st fv i len s tags,
+    s < 0 \/ s_len st <= s \/ s_len st < s + len_or1 len ->
+    add_field st fv i len (Some s) tags = (st, Some E_VALUE).
+Proof. exact add_field_rejects_overflow. Qed.
+
+Theorem C08_add_field_rejects_overlap :
+  forall st fv i len s tags oi ofid os,
+    In (oi, ofid) (potential_fields (s_tree st) fv) ->
+    f_start (sget (s_store st) ofid) = Some os ->
+    os < s + len_or1 len -> s < os + len_or1 (f_len (sget (s_store st) ofid)) ->
+    add_field st fv i len (Some s) tags = (st, Some E_VALUE).
+Proof. exact add_field_rejects_overlap. Qed.
+
+Theorem C08_add_field_rejects_length :
+  forall st fv i l start tags, l <= 0 -> add_field st fv i (Some l) start tags = (st, Some E_VALUE).
+Proof. exact add_field_rejects_length. Qed.
+
+(* the code as found (before fix 27665d7) accepted a field at a negative position *)
+Theorem C08_add_field_negative_start_orig_refuted :
+  exists st', add_field_orig (init 8) [] 0 (Some 2) (Some (-1)) [] = (st', None)
+              /\ add_field (init 8) [] 0 (Some 2) (Some (-1)) [] = (init 8, Some E_VALUE).
+Proof. exact add_field_negative_start_orig_refuted. Qed.
+
+(* ---------------------------------------------------------------- completeness *)
+(* Full clause of the property: `reachable st -> unpositioned .. -> widths_fit .. -> exists st',
+   assign_fields st = (st', None)`.  It is FALSE of the faithful model and of the code (R below).
+   Proved part (U): bit fields without sub-scopes.  Missing for the full guard of DESIGN.md
+   (exclusive_children: the children of every node have pairwise contradictory requirements): the
+   packing argument over the leaf-first pass; the oracle checks that case on every run. *)
+Theorem C08_assign_complete_flat_partial :
+  forall st fs, reachable st -> s_tree st = Node fs [] ->
+    unpositioned (s_tree st) (s_store st) ->
+    widths_fit (s_len st) (s_tree st) (s_store st) ->
+    exists st', assign_fields st = (st', None).
+Proof. exact assign_complete_flat_reachable. Qed.
+
+(* R: first-fit fragmentation.  Length 5; root fields a, b (1 bit each); w (1 bit) under a=1; t (1 bit)
+   under b=1; y (2 bits) under a=0, b=1: nothing positioned, never more than 5 bits present together,
+   assign_fields raises ValueError. *)
+Theorem C08_assign_complete_refuted :
+  exists st st', reachable st /\ unpositioned (s_tree st) (s_store st)
+                 /\ widths_fit (s_len st) (s_tree st) (s_store st)
+                 /\ assign_fields st = (st', Some E_VALUE).
+Proof. exact assign_complete_refuted. Qed.
+
+(* R: the code as found (before fix df25254) never tried the last position: one 8-bit field in an 8-bit
+   bit field failed; the repaired scan lays it out. *)
+Theorem C08_assign_last_position_refuted :
+  exists st st1 st2, reachable st /\ s_tree st = Node [(0, 0%nat)] []
+    /\ unpositioned (s_tree st) (s_store st) /\ widths_fit (s_len st) (s_tree st) (s_store st)
+    /\ assign_fields_orig st = (st1, Some E_VALUE)
+    /\ assign_fields st = (st2, None).
+Proof. exact assign_last_position_refuted. Qed.
+
+(* ---------------------------------------------------------------- hypotheses are satisfiable *)
+Example C08_layout_instance :
+  exists st' v1 m1 v2 m2,
+    reachable ex_state /\ assign_fields ex_state = (st', None)
+    /\ get_value st' (nth 2 (s_insts st') []) None None = Ok v1
+    /\ get_mask st' (nth 2 (s_insts st') []) None None = Ok m1
+    /\ get_value st' (nth 4 (s_insts st') []) None None = Ok v2
+    /\ get_mask st' (nth 4 (s_insts st') []) None None = Ok m2
+    /\ (v1, m1, v2, m2) = (265, 783, 672, 992).
+Proof. exact ex_instance. Qed.
+
+Example C08_complete_guard_satisfiable :
+  exists st fs, reachable st /\ s_tree st = Node fs [] /\ fs <> []
+    /\ unpositioned (s_tree st) (s_store st) /\ widths_fit (s_len st) (s_tree st) (s_store st).
+Proof. exact ex_flat_instance. Qed.
